@@ -44,6 +44,9 @@ type Violation struct {
 	Replayed  string            `json:"replayed,omitempty"` // confirmed | not-reproduced | skipped
 	ReplayOut string            `json:"replay_output,omitempty"`
 	Known     string            `json:"known_finding,omitempty"`
+	// Schedule (goroutine mode): the order in which visible operations took effect, as goroutine:point pairs
+	// over the instrumentation points of the harness package; the guided native replay follows it
+	Schedule string `json:"schedule,omitempty"`
 }
 
 type pathRun struct {
@@ -327,6 +330,9 @@ func (r *pathRun) vector(model map[uint64]uint64) []uint64 {
 func (r *pathRun) violation(kind, msg string, model map[uint64]uint64) {
 	v := Violation{Harness: r.ex.cfg.Harness, Kind: kind, Msg: msg, Vector: r.vector(model), Inputs: append([]inputRec(nil), r.inputs...),
 		Params: r.ex.cfg.Params, Decisions: len(r.decisions), Notes: r.renderNotes(model)}
+	if sc := r.w.i.sched; sc != nil {
+		v.Schedule = sc.scheduleString()
+	}
 	r.ex.addViolation(v)
 	panic(pathEnd{kind: "violation", msg: msg})
 }
